@@ -397,6 +397,27 @@ def localize(X, name, v, depth=0):
     return name, v, failure(guarded_eval(X, name, v))
 
 
+def is_sublist(a, b):
+    n = len(a)
+    return n == 0 or any(b[i:i + n] == a for i in range(len(b) - n + 1))
+
+
+def localize_tags(X, name, v, exp_tags, depth=0):
+    """the implementation's tag list differs from the spec's: descend into the named sub-value whose own encoding does
+    not occur in the expected tag list (rendering-level heuristic, only used to name the violation)"""
+    try:
+        kids = named_children(X, name, v)
+    except Exception:
+        kids = []
+    for cn, cv in kids:
+        if cn not in X.classes:
+            continue
+        e = guarded_eval(X, cn, cv)
+        if e.get("enc", {}).get("ok") and not is_sublist(e["enc"]["tags"], exp_tags):
+            return localize_tags(X, cn, cv, exp_tags, depth + 1)
+    return name, v
+
+
 def classify(X, name, v, f):
     """-> (element, case): which element of the class, and a structural label of the failing situation"""
     s = X.schemas.get(name, {"k": "?"})
@@ -457,8 +478,12 @@ def report_case(X, rep, name, v, f, r, exp_tags=None, source="grid"):
             {"k": "case", "cls": name, "v": v})
         return
     if stage == "tags" or stage == "octets":
-        sig = {"class": name, "element": "-", "case": "tags_differ" if stage == "tags" else "octets_differ"}
-        detail = {"value": v, "expected_tags": exp_tags, "got": strip(r).get("enc"), "source": source}
+        iname, iv = localize_tags(X, name, v, exp_tags) if (stage == "tags" and exp_tags is not None) else (name, v)
+        isch = X.schemas.get(iname, {"k": "?"})
+        el = isch["els"][iv[1] - 1]["name"] if isch["k"] == "choice" and iv[0] == "c" and 1 <= iv[1] <= len(isch["els"]) else "-"
+        sig = {"class": iname, "element": el, "case": "tags_differ" if stage == "tags" else "octets_differ"}
+        detail = {"value": v, "expected_tags": exp_tags, "got": strip(r).get("enc"), "source": source,
+                  "innermost_differing": {"class": iname, "value": iv}}
         if stage == "tags" and exp_tags is not None and r.get("enc", {}).get("ok"):
             got = r["enc"]["tags"]
             at = next((i for i in range(min(len(got), len(exp_tags))) if got[i] != exp_tags[i]), min(len(got), len(exp_tags)))
@@ -747,7 +772,7 @@ def rand_value(X, rng, ty, depth):
         return ["y", rand_tags(rng)]
     if k == "ref":
         return rand_named(X, rng, ty["name"], depth)
-    n = ty["fixed"] if ty["fixed"] >= 0 else (0 if depth >= 5 else rng.choice([0, 0, 1, 1, 2, 3]))
+    n = ty["fixed"] if ty["fixed"] >= 0 else (0 if depth >= 5 else 9 if (depth <= 1 and rng.random() < 0.02) else rng.choice([0, 0, 1, 1, 2, 3]))
     return ["l", [rand_value(X, rng, ty["of"], depth + 1) for _ in range(n)]]
 
 
@@ -920,13 +945,24 @@ def main(tier, seed):
         "golden NameValue.name carries context tag 0 (review correction: the class's own codec and the standard use [0], "
         "the sequenceElements table of the tree does not)",
         "Annex F: 17 worked examples reproduced from memory (service parameters only, APCI header octets are C07's)",
-        "quick samples about 20 values per class from the generated list; thorough replays the full list",
+        "quick replays the full generated list at nesting depth 4 (the property's bound), thorough at depth 5; the lists are "
+        "covering designs (every presence pattern / alternative / list length and the pair products of adjacent elements), "
+        "not the full cross product; arbitrary combinations come from the seeded random values (40 resp. 1200 per class)",
         "a tag after a complete APDU: the specification rejects it, the property does not name it: deviation only",
     ]
+    abstract = []
+    for n, k in sorted(X.classes.items()):
+        try:
+            k()
+        except Exception as ex:
+            abstract.append({"class": n, "exc": exc_name(ex)})
+    chk.extra["classes_not_instantiable"] = abstract
+    chk.extra["abstract_bases_skipped"] = ["APCISequence", "ConfirmedRequestSequence", "ComplexAckSequence",
+                                           "UnconfirmedRequestSequence", "ErrorSequence"]
     drift(chk, rep, X)
     recs = grid(chk, rep, X, full=thorough)
     trailing(chk, X, recs)
-    randoms(chk, rep, X, rng, per_class=400 if thorough else 40)
+    randoms(chk, rep, X, rng, per_class=1200 if thorough else 40)
     chk.extra["classes"] = len(X.schemas)
     chk.extra["registered_pdus"] = len(X.registry)
     return chk.finish()
